@@ -4,7 +4,7 @@ from fractions import Fraction
 
 from harness import coqio as cq
 from harness import thr_common as tc
-from harness.common import F, enc, fl
+from harness.common import CONFIGS, F, enc, fl
 
 ID = "C02"
 PROPS_FILE = "Props/C02.v"
@@ -38,12 +38,44 @@ def gen_cases(rng, tier):
         if not exact and any(F(x).denominator > 1 << 20 for x in c["pos"] + c["neg"]) and k % 3:
             c = tc.thr_case(rng, True)   # keep the number of big-literal cases low
         cases.append(c)
+    # large populations (generated from a seed inside the driver, distinct doubles): targets a few samples from either
+    # end of the scale, where "within one sample" is a relative accuracy of 1e-5 and below
+    for j in range({"quick": 4, "thorough": 24, "search": 8}[tier]):
+        sc, ec = CONFIGS[j % 4]
+        cases.append({"kind": "big", "n_pos": rng.choice([150000, 250000]), "n_neg": rng.choice([200000, 400000]),
+                      "ep": rng.choice([0, 0, 50000]), "en": rng.choice([0, 30000]), "sc": sc, "ec": ec,
+                      "metric": tc.METRICS[j % 6] if tier == "quick" else rng.choice(tc.METRICS), "seed": rng.randint(0, 10 ** 6),
+                      "targets": [8e-6, 3e-6, 1 - 8e-6, 1 - 2e-6, 1e-5, 0.5, 1.5e-5, 1 - 1.2e-5]})
     return cases
+
+
+def _run_big(case):
+    import numpy as np
+    from score_analysis import Scores
+
+    g = np.random.default_rng(case["seed"])
+    pos = np.unique(g.normal(1.0, 1.0, case["n_pos"]))
+    neg = np.unique(g.normal(-1.0, 1.0, case["n_neg"]))
+    s = Scores(pos, neg, nb_easy_pos=case["ep"], nb_easy_neg=case["en"], score_class=case["sc"], equal_class=case["ec"])
+    met = getattr(s, case["metric"])
+    n_all = {"tpr": s.nb_all_pos, "fnr": s.nb_all_pos, "tnr": s.nb_all_neg, "fpr": s.nb_all_neg}.get(case["metric"], s.nb_all_samples)
+    easy = {"tpr": (s.nb_easy_pos, "hi"), "fnr": (s.nb_easy_pos, "lo"), "tnr": (s.nb_easy_neg, "hi"), "fpr": (s.nb_easy_neg, "lo"),
+            "topr": (s.nb_easy_pos, "offset"), "tonr": (s.nb_easy_neg, "offset")}[case["metric"]]
+    out = {"n_all": int(n_all), "rows": []}
+    lo_ach, hi_ach = float(met(np.inf)), float(met(-np.inf))
+    lo_ach, hi_ach = min(lo_ach, hi_ach), max(lo_ach, hi_ach)
+    for r in case["targets"]:
+        for m in ("linear", "lower", "higher"):
+            t = getattr(s, "threshold_at_" + case["metric"])(r, method=m)
+            out["rows"].append([r, m, float(met(t)), lo_ach, hi_ach])
+    return out
 
 
 def run_impl(case):
     import numpy as np
 
+    if case.get("kind") == "big":
+        return _run_big(case)
     s, targets, thr, out = tc.run_thresholds(case)
     met = getattr(s, case["metric"])
     for m in ("linear", "lower", "higher"):
@@ -61,6 +93,8 @@ def run_impl(case):
 
 
 def coq_term(case, res):
+    if case.get("kind") == "big":
+        return None
     if "ok" not in res:
         if res.get("err") == "ValueError":
             return f"(let s := {tc.scores_term(case)} in thr_raises {tc.COQ_METRIC[case['metric']]} s Linear 0)"
@@ -87,6 +121,22 @@ def _untied(case, tau):
 
 
 def oracle(case, res):
+    if case.get("kind") == "big":
+        if "ok" not in res:
+            return [("C02/exception", f"threshold_at_{case['metric']} raised {res.get('err')}: {res.get('msg')}")]
+        r = res["ok"]
+        fails = []
+        one = 1.0 / r["n_all"]
+        for target, m, got, lo_a, hi_a in r["rows"]:
+            clipped = min(max(target, lo_a), hi_a)
+            # scores are distinct: one sample, plus float slack of the rate arithmetic
+            # linear: the round-trip clause (one sample); lower / higher are the neighbouring samples: one more sample
+            if abs(got - clipped) > (1 if m == "linear" else 2) * one * 1.001 + 1e-12:
+                fails.append((f"C02/roundtrip/big/{case['metric']}/{case['sc']}-{case['ec']}",
+                              f"{r['n_all']} samples, target {target!r}, method {m}: {case['metric']} at the returned threshold is {got!r}, "
+                              f"{abs(got - clipped) * r['n_all']:.2f} samples from the (clipped) target"))
+                break
+        return fails
     rel, _ = tc.relevant(case)
     if "ok" not in res:
         if res.get("err") == "ValueError" and not rel:
@@ -157,6 +207,8 @@ def oracle(case, res):
 
 
 def nontrivial(case, res):
+    if case.get("kind") == "big":
+        return "ok" in res
     rel, _ = tc.relevant(case)
     if len(rel) < 2:
         return False
@@ -166,7 +218,10 @@ def nontrivial(case, res):
 
 def distribution(cases, results):
     d = {"n": len(cases), "exact_stream": 0, "metric": {}, "method": {}, "cfg": {}, "with_easy": 0, "tied_relevant": 0, "errors": 0}
+    d["big_populations"] = sum(1 for c in cases if c.get("kind") == "big")
     for c, r in zip(cases, results):
+        if c.get("kind") == "big":
+            continue
         d["exact_stream"] += bool(c.get("exact"))
         d["metric"][c["metric"]] = d["metric"].get(c["metric"], 0) + 1
         d["method"][c["method"]] = d["method"].get(c["method"], 0) + 1
